@@ -435,6 +435,8 @@ pub struct KnownFinding {
     pub key: String,
     pub what: String,
     pub status: String,
+    pub sub: String,
+    pub reproducer: Value,
 }
 
 pub fn load_known_findings() -> Vec<KnownFinding> {
@@ -450,6 +452,8 @@ pub fn load_known_findings() -> Vec<KnownFinding> {
             key: e["key"].as_str().unwrap_or("").to_string(),
             what: e["what"].as_str().unwrap_or("").to_string(),
             status: e["status"].as_str().unwrap_or("open").to_string(),
+            sub: e["sub"].as_str().unwrap_or("").to_string(),
+            reproducer: e["reproducer"].clone(),
         });
     }
     out
@@ -819,6 +823,32 @@ impl Ctx {
             }
         }
         let _ = n;
+    }
+
+    /// Re-run the stored reproducer of every open known finding of this sub-check, so that a
+    /// finding is reported (KNOWN-FINDING line) exactly while it is still present, even when the
+    /// random search excludes its construct by construction.
+    pub fn run_known_reproducers<P: Prop>(&mut self, prop: &P) {
+        let mine: Vec<KnownFinding> = self
+            .known
+            .iter()
+            .filter(|k| k.property == self.property && k.status == "open" && k.sub == prop.name() && !k.reproducer.is_null())
+            .cloned()
+            .collect();
+        let cases: Vec<(KnownFinding, P::Case)> = mine.into_iter().filter_map(|k| prop.from_rendered(&k.reproducer).map(|c| (k, c))).collect();
+        let outcomes: Vec<Outcome> = cases.par_iter().map(|(_, c)| eval_guarded(prop, c)).collect();
+        for ((k, case), o) in cases.iter().zip(outcomes.iter()) {
+            self.absorb(prop.name(), o, || prop.render(case));
+            *self.classes.entry(format!("{}/known-finding-reproducers", prop.name())).or_insert(0) += 1;
+            match &o.fail {
+                Some(f) => {
+                    self.report_failure(prop.name(), f, || json!({"rendered": prop.render(case), "from_known_finding": k.key}));
+                }
+                None => {
+                    *self.classes.entry(format!("{}/known-finding-no-longer-reproduces", prop.name())).or_insert(0) += 1;
+                }
+            }
+        }
     }
 
     pub fn note_excluded(&mut self, what: &str, n: u64) {
